@@ -107,8 +107,10 @@ func init() {
 		"JwtRsaSsaPkcs1PublicKey", "JwtRsaSsaPssPublicKey", "MlDsaPublicKey", "SlhDsaPublicKey", "SlhDsaPrivateKey",
 		"JwtRsaSsaPkcs1PrivateKey", "JwtRsaSsaPssPrivateKey", "JwtMlDsaPublicKey",
 		// third round (the public key of the seed comes from the oracle op c14_mldsa_pub)
-		"MlDsaPrivateKey", "JwtMlDsaPrivateKey"}
-	rest := []string{"PrfBasedDeriverKey", "CompositeMlDsaPublicKey", "CompositeMlDsaPrivateKey"}
+		"MlDsaPrivateKey", "JwtMlDsaPrivateKey",
+		// fourth round: the nested key data go to the parsers already transcribed
+		"CompositeMlDsaPublicKey", "CompositeMlDsaPrivateKey"}
+	rest := []string{"PrfBasedDeriverKey"}
 	for _, n := range base {
 		modelled[tp+n] = true
 		base16[tp+n] = true
